@@ -2,11 +2,11 @@
    64-bit field (F64_ops, F64_laws) and discharges ALL its hypotheses.  stdlib style. *)
 From Coq Require Import List Arith ZArith Lia Ring Field.
 From VBase Require Import FieldOps ZpOps.
-From VModel Require Import Composition CompositionLagrange CompositionMixed ExtField.
+From VModel Require Import Composition CompositionLagrange CompositionMixed CompositionMixedWhole ExtField.
 From VModel Require Enforce EnforceLagrange.
 From VModel Require FFT Stark.
 From VProofs Require FFTSpec FFTEval FFTOffset StarkPoly.
-From VProofs Require Import ZpLaws CompositionBase CompositionIndex CompositionVerifier CompositionTable CompositionFFT CompositionValid CompositionLagrange CompositionLagrangeTable CompositionLagrangePoly CompositionMixed CompositionMixedInst ExtModel ExtConcrete.
+From VProofs Require Import ZpLaws CompositionBase CompositionIndex CompositionVerifier CompositionTable CompositionFFT CompositionValid CompositionLagrange CompositionLagrangeTable CompositionLagrangePoly CompositionMixed CompositionMixedWhole CompositionMixedInst ExtModel ExtConcrete.
 Import ListNotations.
 Local Open Scope nat_scope.
 
@@ -202,6 +202,42 @@ Proof.
   intros step Hstep.
   apply (boundary_repr_equiv_ext O64 _ F64_laws f64_quad_laws _ _ quad_f64_emb 2 2 (e64 7) rouA ltac:(lia) ltac:(lia) i4_order i4_sq m1 m1_inv
            0 1 [e64 1; e64 2] (e64 3, e64 5) [e64 9] (e64 9) eq_refl ltac:(simpl; lia) ltac:(lia) eq_refl step Hstep).
+Qed.
+
+(* round 8: the whole mixed single-segment table over the quadratic extension of f64 (instance A without the auxiliary
+   segment; base-field trace, periodic column and assertions, extension-field coefficients) *)
+Definition OQ := q_ops F64_ops (f64_x2 F64_ops).
+Definition embQ := q_from_base F64_ops.
+Definition tmainQ (cur nxt pv : list (Fq * Fq)) : list (Fq * Fq) :=
+  [fsub OQ (nth 0 nxt (fzero OQ)) (fmul OQ (nth 0 cur (fzero OQ)) (fadd OQ (fone OQ) (nth 0 pv (fzero OQ))))].
+Definition gmA : @BGm Fq (Fq * Fq) := mkBGm (mkDiv 1 (fone O64) []) [mkBCm 0 [e64 4] 0 (cpow O64 m1 0) (e64 13, e64 2)].
+Definition gmA2 : @BGm Fq (Fq * Fq) := mkBGm (mkDiv 2 m1 []) [mkBCm 0 [e64 1; e64 2] 1 (cpow O64 m1 1) (e64 5, e64 6)].
+
+Lemma tmainQ_commutes cur nxt pv : tmainQ (map embQ cur) (map embQ nxt) (map embQ pv) = map embQ (tmainA cur nxt pv).
+Proof.
+  unfold tmainQ, tmainA. cbn [map]. f_equal.
+  assert (N : forall l, nth 0 (map embQ l) (fzero OQ) = embQ (nth 0 l (fzero O64)))
+    by (intros l; change (fzero OQ) with (embQ (fzero O64)); apply map_nth).
+  rewrite !N. unfold OQ, embQ.
+  rewrite <- (emb_one _ _ _ _ quad_f64_emb), <- (emb_add _ _ _ _ quad_f64_emb), <- (emb_mul _ _ _ _ quad_f64_emb).
+  symmetry. apply (emb_sub _ _ _ _ quad_f64_emb).
+Qed.
+
+Example table_row_spec_single_segment_ext_instance :
+  evaluate_mixed O64 OQ (q_mul_base (f64_x2 F64_ops)) 2 2 2 (e64 7) rouA 1 tmainA ppolysA 1 [(e64 11, e64 3)] [gmA; gmA2] (ldeA tpolysA)
+  = Some (map (fun i => comp_def OQ 2 (fun m => embQ (rouA m)) tmainQ (fun _ _ _ _ _ _ => []) (map (map embQ) ppolysA) 1 [(e64 11, e64 3)]
+                                 (map (embG embQ) [gmA; gmA2]) [] [] false (map (map embQ) tpolysA) []
+                                 (embQ (ce_x O64 2 2 (e64 7) rouA i))) (seq 0 (ce_size 2 2))).
+Proof.
+  apply (quad_f64_table_row_spec_ext 2 2 2 (e64 7) rouA 1 tmainA tmainQ (fun _ _ _ _ _ _ => []) tmainQ_commutes ppolysA 1
+           [(e64 11, e64 3)] [gmA; gmA2] [] (ldeA tpolysA) [] 1 i4 m1); try lia;
+    try first [exact i4_order | exact i4_sq | exact i4_1 | exact m1_inv | reflexivity].
+  - intros p [<-|[]]. simpl. lia.
+  - intros p [<-|[]]. reflexivity.
+  - intros p [<-|[]]. exists 1. reflexivity.
+  - intros p [<-|[]]. symmetry. exact i4_1.
+  - intros g [<-|[<-|[]]]; (split; [repeat split; simpl; lia|]); intros c [<-|[]]; repeat split; simpl; lia.
+  - apply lde_rows_witness.
 Qed.
 
 Section TwoPoint.
